@@ -1,6 +1,7 @@
 package c10
 
 import (
+	"strings"
 	"fmt"
 	"reflect"
 
@@ -322,6 +323,12 @@ func patchSetScenario(rep *report.R) report.Scenario {
 		ref := refs[r.Free(len(refs), "reference")]
 		ss := setShapes[r.Free(len(setShapes), "sets")]
 		pos := r.Free(3, "position")
+		// The other template may lead with the same patch set, and the slices
+		// may have spare capacity - as every slice the API client decodes
+		// from JSON has - so that an append to one of them can write into
+		// memory another one shares.
+		uLeads := r.Bool("other-template-leads-with-the-same-set")
+		spare := r.Bool("slices-have-spare-capacity")
 		var sets []v1.PatchSet
 		switch ss {
 		case "two-sets":
@@ -341,7 +348,27 @@ func patchSetScenario(rep *report.R) report.Scenario {
 		}
 		ps = append(ps, own[pos:]...)
 		n := "t"
-		cts := []v1.ComposedTemplate{{Name: &n, Patches: ps}, {Name: ptr("u"), Patches: []v1.Patch{mk("u")}}}
+		ups := []v1.Patch{mk("u")}
+		if uLeads && ref.p != nil {
+			ups = []v1.Patch{*ref.p, mk("u")}
+		}
+		cts := []v1.ComposedTemplate{{Name: &n, Patches: ps}, {Name: ptr("u"), Patches: ups}}
+		if spare {
+			roomy := func(in []v1.Patch) []v1.Patch {
+				if in == nil {
+					return nil
+				}
+				out := make([]v1.Patch, len(in), len(in)+3)
+				copy(out, in)
+				return out
+			}
+			for i := range sets {
+				sets[i].Patches = roomy(sets[i].Patches)
+			}
+			for i := range cts {
+				cts[i].Patches = roomy(cts[i].Patches)
+			}
+		}
 		comp := &v1.Composition{Spec: v1.CompositionSpec{PatchSets: sets, Resources: cts}}
 		_, verrs := comp.Validate()
 		validated := len(verrs) == 0
@@ -361,7 +388,7 @@ func patchSetScenario(rep *report.R) report.Scenario {
 		r.Logf("ComposedTemplates sets=%s reference=%s at %d: err=%v panic=%v (%s)", ss, ref.name, pos, e1, p1, valWord(validated))
 		rec := &evalRec{outcome: report.Hash(errStr(e1), fmt.Sprint(p1), fmt.Sprint(len(o1)))}
 		if validated && ref.p != nil {
-			rec.nontrivial = report.Hash("ps", ref.name, ss, pos)
+			rec.nontrivial = report.Hash("ps", ref.name, ss, pos, uLeads, spare)
 			rec.sample = map[string]any{"scenario": name, "sets": ss, "reference": ref.name, "position": pos, "error": errStr(e1), "choices": append([]int{}, r.Choices...)}
 		}
 		sig := ss + "/" + ref.name
@@ -399,17 +426,41 @@ func patchSetScenario(rep *report.R) report.Scenario {
 				want = append(want, set...)
 			}
 			want = append(want, own[pos:]...)
+			wantU := []v1.Patch{mk("u")}
+			if uLeads && ref.p != nil && !wantErr {
+				wantU = append(append([]v1.Patch{}, defined[*ref.p.PatchSetName]...), mk("u"))
+			}
 			switch {
 			case wantErr && e1 == nil:
 				a.fail(r, rec, "oracle/patchsets/undefined-reference-accepted", "reference %s to an undefined patch set returned no error (%s)", ref.name, valWord(validated))
 			case !wantErr && e1 != nil:
 				a.fail(r, rec, "oracle/patchsets/unexpected-error", "unexpected error %v (%s)", e1, valWord(validated))
 			case !wantErr:
-				if len(o1) != 2 || !(len(o1[0].Patches) == 0 && len(want) == 0 || reflect.DeepEqual(o1[0].Patches, want)) || !reflect.DeepEqual(o1[1].Patches, cts[1].Patches) {
-					a.fail(r, rec, "oracle/patchsets/wrong-inlining", "inlined patches differ from the reference: got %d patches in template t, want %d (%s)", len(o1[0].Patches), len(want), valWord(validated))
+				if len(o1) != 2 || !(len(o1[0].Patches) == 0 && len(want) == 0 || reflect.DeepEqual(o1[0].Patches, want)) || !reflect.DeepEqual(o1[1].Patches, wantU) {
+					a.fail(r, rec, "oracle/patchsets/wrong-inlining", "inlined patches differ from the reference: template t has %s, want %s; template u has %s, want %s (%s)", patchTags(o1[0].Patches), patchTags(want), patchTags(o1[1].Patches), patchTags(wantU), valWord(validated))
 				}
 			}
 		}
 		a.done(rec)
 	}}
+}
+
+func patchTags(ps []v1.Patch) string {
+	var out []string
+	for _, p := range ps {
+		switch {
+		case p.Type == v1.PatchTypePatchSet:
+			out = append(out, "set:"+ptrStr(p.PatchSetName))
+		default:
+			out = append(out, ptrStr(p.FromFieldPath))
+		}
+	}
+	return "[" + strings.Join(out, " ") + "]"
+}
+
+func ptrStr(s *string) string {
+	if s == nil {
+		return "<nil>"
+	}
+	return *s
 }
